@@ -85,6 +85,8 @@ pub struct Opts {
     pub hang_secs: u64,
     pub track_states: bool,
     pub state_cap: usize,
+    /// write "<item index> <choice prefix>" to this file before every execution (crash triage; use 1 thread)
+    pub journal: Option<String>,
 }
 
 pub fn devs_of(prefix: &[u16]) -> u32 {
@@ -92,12 +94,21 @@ pub fn devs_of(prefix: &[u16]) -> u32 {
 }
 
 /// next choice prefix in DFS order that keeps `frozen` fixed and respects the deviation bound
-pub fn next_prefix(rec: &[(u16, u16)], frozen: usize, dev: u32) -> Option<(Vec<u16>, usize)> {
+///
+/// `class = (r, k)` restricts the search to the executions whose first non-default choice after the
+/// frozen prefix sits at a position congruent to r modulo k (the all-default execution belongs to
+/// class 0): the k classes partition the subtree, which balances the long "comb" shaped trees of
+/// deviation-bounded items over the workers.
+pub fn next_prefix(rec: &[(u16, u16)], frozen: usize, dev: u32, class: (u16, u16)) -> Option<(Vec<u16>, usize)> {
     let mut devs: u32 = rec.iter().filter(|r| r.0 != 0).count() as u32;
+    let first_dev = rec[frozen.min(rec.len())..].iter().position(|r| r.0 != 0).map(|p| p + frozen).unwrap_or(rec.len());
     for i in (frozen..rec.len()).rev() {
         let (c, a) = rec[i];
         if c != 0 {
             devs -= 1;
+        }
+        if class.1 > 1 && i <= first_dev && ((i - frozen) % class.1 as usize) != class.0 as usize {
+            continue;
         }
         // devs = deviations strictly before i
         if c + 1 < a && devs + 1 <= dev {
@@ -133,7 +144,7 @@ pub fn run_once<I: Item + ?Sized>(item: &I, prefix: &[u16], log: bool, track: bo
 
 struct Shared<'a, I: Item> {
     items: &'a [I],
-    tasks: Vec<(usize, Vec<u16>)>,
+    tasks: Vec<(usize, Vec<u16>, (u16, u16))>,
     next: AtomicUsize,
     stop: AtomicBool,
     failed: Vec<AtomicBool>,
@@ -176,7 +187,7 @@ fn worker<I: Item>(sh: &Shared<I>, opts: &Opts, beat: &Beat, deadline: Instant) 
         if t >= sh.tasks.len() {
             break;
         }
-        let (ii, ref base) = sh.tasks[t];
+        let (ii, ref base, class) = sh.tasks[t];
         if sh.failed[ii].load(Ordering::Relaxed) {
             continue;
         }
@@ -194,17 +205,25 @@ fn worker<I: Item>(sh: &Shared<I>, opts: &Opts, beat: &Beat, deadline: Instant) 
                 c.1.clear();
                 c.1.extend_from_slice(&prefix);
             }
+            if let Some(j) = &opts.journal {
+                let line = format!("{} {}\n", ii, prefix.iter().map(|c| c.to_string()).collect::<Vec<_>>().join(","));
+                let _ = std::fs::write(j, line);
+            }
             beat.busy.store(true, Ordering::Relaxed);
             let eo = run_once(item, &prefix, false, opts.track_states && !out.capped);
             beat.busy.store(false, Ordering::Relaxed);
             beat.count.fetch_add(1, Ordering::Relaxed);
             let st = &mut out.stats[ii];
-            st.executions += 1;
-            if eo.devs > 0 {
-                st.nontrivial += 1;
+            // the base execution of a task is shared by its classes: count it in class 0 only
+            let counted = !(first && class.0 != 0);
+            if counted {
+                st.executions += 1;
+                if eo.devs > 0 {
+                    st.nontrivial += 1;
+                }
+                st.nodes += (eo.rec_len.saturating_sub(new_from)) as u64 + if first { 1 } else { 0 };
+                st.steps += eo.steps as u64;
             }
-            st.nodes += (eo.rec_len.saturating_sub(new_from)) as u64 + if first { 1 } else { 0 };
-            st.steps += eo.steps as u64;
             st.max_len = st.max_len.max(eo.rec_len as u32);
             st.max_devs = st.max_devs.max(eo.devs);
             out.outcomes[ii].insert(eo.outcome);
@@ -245,7 +264,7 @@ fn worker<I: Item>(sh: &Shared<I>, opts: &Opts, beat: &Beat, deadline: Instant) 
                 if first && out.samples.len() < 2 {
                     out.samples.push(Sample { item: ii, choices: w.ch.rec.clone(), outcome: w.outcome });
                 }
-                next_prefix(&w.ch.rec, frozen, dev)
+                next_prefix(&w.ch.rec, frozen, dev, class)
             });
             first = false;
             if fail {
@@ -314,10 +333,13 @@ pub fn explore<I: Item>(items: &[I], opts: &Opts, on_hang: &(dyn Fn(&Found) + Sy
     let t0 = Instant::now();
     let deadline = t0 + Duration::from_secs_f64(opts.time_limit_s);
     // ---- task generation
-    let mut tasks: Vec<(usize, Vec<u16>)> = Vec::new();
+    let mut tasks: Vec<(usize, Vec<u16>, (u16, u16))> = Vec::new();
     for (ii, it) in items.iter().enumerate() {
+        let k: u16 = if it.cfg().dev != u32::MAX { 16 } else { 1 };
         for p in expand(it, opts.split) {
-            tasks.push((ii, p));
+            for r in 0..k {
+                tasks.push((ii, p.clone(), (r, k)));
+            }
         }
     }
     // interleave tasks of different items so that early stops and load are spread
